@@ -29,7 +29,11 @@ def some_intervals(k):
 
 def plan(tier):
     if tier == "quick":
-        specs = [([("dense", 1, 5)], CONF_Q), ([("bounded", 3, 6, 8)], CONF_Q[::2])]
+        # bounded regime: three spikes per train and clock >= 7 are needed for an interior
+        # pair further apart than max_tau but inside the adaptive window
+        specs = [([("dense", 1, 5)], CONF_Q),
+                 ([("bounded", 3, 6, 8)], [CONF_Q[0], CONF_Q[2], CONF_Q[5], CONF_Q[6], CONF_Q[7],
+                                           CONF_Q[10]])]
     else:
         specs = [([("dense", 1, 7)], CONF_T), ([("bounded", 4, 8, 11)], CONF_Q)]
     tasks, descs = [], []
